@@ -368,7 +368,55 @@ func (g *G) jsonSafeStr() string {
 	return []string{"", "a", "hello", "é", "😀", "a\"b\\c", "line\nbreak", " ", "k1", "x y"}[g.intn(10)]
 }
 
+// zeroish builds a value that is empty all the way down but not nil where it need not be: zero scalars, empty
+// strings, non-nil pointers to such values, empty (sometimes nil) slices and maps.  Emptiness — omitempty, the
+// counting of emitted fields, null versus empty — is decided on exactly these.
+func (g *G) zeroish(c *objCase, t *TD, o genOpts, depth int) reflect.Value {
+	v := reflect.New(t.rt).Elem()
+	tt := t
+	for tt.k == "nm" {
+		tt = tt.elem
+	}
+	switch tt.k {
+	case "pt":
+		if depth < 5 && g.chance(0.85) {
+			p := reflect.New(tt.elem.rt)
+			p.Elem().Set(g.zeroish(c, tt.elem, o, depth+1))
+			v.Set(p)
+		}
+	case "st":
+		if len(tt.field) != v.NumField() {
+			return g.genValue(c, t, o, depth+1)
+		}
+		for i, ft := range tt.field {
+			v.Field(i).Set(g.zeroish(c, ft, o, depth+1))
+		}
+	case "sl":
+		if g.chance(0.5) {
+			v.Set(reflect.MakeSlice(v.Type(), 0, 0))
+		}
+	case "mp":
+		if g.chance(0.5) {
+			v.Set(reflect.MakeMap(v.Type()))
+		}
+	case "ar":
+		for i := 0; i < v.Len(); i++ {
+			v.Index(i).Set(g.zeroish(c, tt.elem, o, depth+1))
+		}
+	case "x":
+		if g.chance(0.5) {
+			v.Set(reflect.MakeSlice(v.Type(), 0, 0))
+		}
+	case "if":
+		return g.genValue(c, t, o, depth+1) // a union always holds a member
+	}
+	return v
+}
+
 func (g *G) genValue(c *objCase, t *TD, o genOpts, depth int) reflect.Value {
+	if depth == 0 && g.chance(0.08) {
+		return g.zeroish(c, t, o, 1)
+	}
 	v := reflect.New(t.rt).Elem()
 	tt := t
 	for tt.k == "nm" {
